@@ -601,7 +601,7 @@ Definition enc_res {A} (f : A -> obs) (r : res A) : obs :=
 Definition enc_ures (two_tuple : bool) (u : ures) : obs :=
   let '(i, r) := u in
   match r with
-  | Ok (m, w, t, _, _) => L [I 0; I (Z.of_nat i); B w; enc_msg m; I t; ob two_tuple]
+  | Ok (m, _, t, _, _) => L [I 0; I (Z.of_nat i); enc_msg m; I t; ob two_tuple]
   | Lib e => L [E e; I (Z.of_nat i)]
   | Internal e => L [E e; I (Z.of_nat i)]
   end.
